@@ -46,6 +46,15 @@ class CSA:
         self.free_fns = {it['name']: it for it in syn.all_items(file) if it['k'] == 'fn'}
         # constant tables of the module (`const FUSED: [(Operator, OpCode); 11] = [..]`): a name stands for its initialiser
         self.consts = {it['name']: it['expr'] for it in syn.all_items(file) if it['k'] == 'const' and it.get('expr') is not None}
+        # the two fields of a loop context by what they hold, not by their names: a position (where `volgende` jumps to) and a list
+        # of positions (the `stop` jumps still to be patched)
+        self.loop_start_field, self.loop_breaks_field = 'start', 'break_instructions'
+        for it in syn.all_items(file):
+            if it['k'] == 'structdef' and it['name'] == 'LoopContext':
+                us = [f_['name'] for f_ in it['fields'] if f_['ty'].replace(' ', '') == 'usize']
+                vs = [f_['name'] for f_ in it['fields'] if f_['ty'].replace(' ', '') == 'Vec<usize>']
+                if len(us) == 1 and len(vs) == 1:
+                    self.loop_start_field, self.loop_breaks_field = us[0], vs[0]
         self.m = Machine(optable, operands_decl)
         self.scope_variants = list(scope_variants)
         self.summaries = {}       # method -> {key: SummaryExit}
@@ -360,6 +369,8 @@ class CSA:
                 return [(st, env, 'v', ('placeholder',))]
             if p[0] == 'None':
                 return [(st, env, 'v', ('opt', 'none'))]
+            if p[0] in ('Some', 'Ok', 'Err'):
+                return [(st, env, 'v', ('ctor', p[0]))]          # the constructor as a function value: `.map(Some)`
             if p[0] in self.consts and self.depth < 8:
                 # a constant of the module: its initialiser is evaluated in place (it can name nothing but other constants)
                 self.depth += 1
@@ -525,19 +536,19 @@ class CSA:
             if v[0] == 'sym':
                 out.append((s1, e1, 'v', ('symscope', v[1]) if m == 'scope' else ('symindex', v[1]) if m == 'index' else ('unk', m)))
             elif v[0] == 'loopctx':
-                if m == 'start':
+                if m == self.loop_start_field:
                     if v[1] == 'outer':
                         out.append((s1, e1, 'v', ('outer_start',)))
                     else:
                         out.append((s1, e1, 'v', ('pos', s1.loops[v[1]].start.pos)))
-                elif m == 'break_instructions':
+                elif m == self.loop_breaks_field:
                     out.append((s1, e1, 'v', ('breaklist', v[1])))
                 else:
                     out.append((s1, e1, 'v', ('unk', m)))
             elif v[0] == 'loopctx_val':
-                if m == 'break_instructions':
+                if m == self.loop_breaks_field:
                     out.append((s1, e1, 'v', ('breaklist_val', v[1])))
-                elif m == 'start':
+                elif m == self.loop_start_field:
                     out.append((s1, e1, 'v', ('pos', v[1].start.pos)))
                 else:
                     out.append((s1, e1, 'v', ('unk', m)))
@@ -545,6 +556,8 @@ class CSA:
                 out.append((s1, e1, 'v', ('selffield', v[1] + '.' + m)))
             elif v[0] == 'ast':
                 out.append((s1, e1, 'v', ('ast', v[1] + '.' + m)))
+            elif v[0] == 'struct' and m in dict(v[2]):
+                out.append((s1, e1, 'v', dict(v[2])[m]))        # a field of a record built on this path (`Checkpoint { globals_defined }`)
             else:
                 out.append((s1, e1, 'v', ('unk', m)))
         return out
@@ -1085,6 +1098,11 @@ class CSA:
                     for s3, e3, k3, v3 in self.apply_closure(a[0], [], s2, en):
                         outs.append((s3, en, 'v', ('opt', 'some', v3)))
             return outs
+        if meth in ('map', 'and_then') and r[0] in ('opt', 'res') and a and a[0][0] == 'ctor':
+            if r[1] in ('none', 'err'):
+                return V(r)
+            wrapped = ('opt', 'some', r[2]) if a[0][1] == 'Some' else ('res', a[0][1].lower(), r[2])
+            return V(wrapped if meth == 'and_then' else (r[0], r[1], wrapped))
         if meth in ('map', 'and_then') and r[0] in ('opt', 'res') and a and a[0][0] == 'closure':
             if r[1] in ('none', 'err'):
                 return V(r)
